@@ -82,3 +82,20 @@ Proof.
   - exact glue_I_overflowing_mul.
 Qed.
 
+(* ==== round 2 (tools/mk_gluetie.py) ==== *)
+(* unchecked_mul of src/int/unchecked.rs *)
+Lemma glue_U_unchecked_mul : forall w a b, Glue.U_unchecked_mul w a b = U_checked_mul w a b.
+Proof. glue_tac. Qed.
+Lemma glue_I_unchecked_mul : forall w a b, Glue.I_unchecked_mul w a b = I_checked_mul w a b.
+Proof. glue_tac. Qed.
+
+Definition glue_mul2_statement : Prop :=
+  (forall w a b, Glue.U_unchecked_mul w a b = U_checked_mul w a b) /\
+  (forall w a b, Glue.I_unchecked_mul w a b = I_checked_mul w a b).
+Theorem glue_mul2_matches_model : glue_mul2_statement.
+Proof.
+  unfold glue_mul2_statement. repeat apply conj.
+  - exact glue_U_unchecked_mul.
+  - exact glue_I_unchecked_mul.
+Qed.
+(* ==== end of round 2 ==== *)
